@@ -547,9 +547,10 @@ struct Done {
     stratum: &'static str,
     obs: Observed,
     verdict: Verdict,
+    n_records: usize,
 }
 
-fn execute_all(cases: Vec<Planned>, bins: Arc<Binaries>, jobs: usize) -> Result<Vec<Done>, String> {
+fn execute_all(cases: Vec<Planned>, bins: Arc<Binaries>, jobs: usize, keep_every: usize) -> Result<Vec<Done>, String> {
     let cases = Arc::new(cases);
     let next = Arc::new(AtomicUsize::new(0));
     let out: Arc<Mutex<Vec<Done>>> = Arc::new(Mutex::new(vec![]));
@@ -571,14 +572,23 @@ fn execute_all(cases: Vec<Planned>, bins: Arc<Binaries>, jobs: usize) -> Result<
                 }
             }
             match r {
-                Ok(obs) => {
+                Ok(mut obs) => {
                     let verdict = judge(&p.case, &obs);
+                    let n_records = obs.log.len();
+                    // keep memory bounded on large batches: the full call log is only needed for the
+                    // determinism sample (every 40th case), for samples and for violations
+                    let sane = obs.started && (obs.stdout_pipe == obs.stdout_accepted || obs.timed_out);
+                    if keep_every > 0 && i % keep_every != 0 && verdict.class.is_none() && sane {
+                        obs.log.clear();
+                        obs.log.shrink_to_fit();
+                    }
                     out.lock().unwrap().push(Done {
                         idx: i,
                         case: p.case.clone(),
                         stratum: p.stratum,
                         obs,
                         verdict,
+                        n_records,
                     });
                 }
                 Err(e) => errs.lock().unwrap().push(e),
@@ -854,14 +864,14 @@ fn mode_run(args: &[String]) -> i32 {
         .filter(|(i, _)| i % 40 == 0)
         .map(|(_, p)| Planned { case: p.case.clone(), stratum: p.stratum })
         .collect();
-    let done = match execute_all(cases, bins.clone(), jobs) {
+    let done = match execute_all(cases, bins.clone(), jobs, 40) {
         Ok(d) => d,
         Err(e) => {
             println!("HARNESS-ERROR {}", e);
             return 2;
         }
     };
-    let done2 = match execute_all(doubles, bins.clone(), jobs) {
+    let done2 = match execute_all(doubles, bins.clone(), jobs, 1) {
         Ok(d) => d,
         Err(e) => {
             println!("HARNESS-ERROR {}", e);
@@ -909,7 +919,7 @@ fn mode_run(args: &[String]) -> i32 {
         for (_, a, b) in &d.obs.script_left {
             unfired_events += (b - a) as u64;
         }
-        calls += d.obs.log.len() as u64;
+        calls += d.n_records as u64;
         flagsets.insert(d.case.cfg.encode());
         let ek = match d.verdict.expect {
             Expect::Output(_) => "faithful-output",
@@ -989,7 +999,7 @@ fn mode_run(args: &[String]) -> i32 {
     let wall = t0.elapsed().as_secs_f64();
     if let Some(p) = evidence {
         let mut samples: Vec<Value> = vec![];
-        for d in done.iter().filter(|d| d.stratum.starts_with("search") && !d.obs.fired.is_empty()).take(2) {
+        for d in done.iter().filter(|d| d.stratum.starts_with("search") && !d.obs.fired.is_empty() && !d.obs.log.is_empty()).take(2) {
             samples.push(json!({"case": d.case.to_json(), "expected": expect_json(&d.verdict.expect), "exit": d.obs.exit_code, "log": d.obs.log.iter().take(30).collect::<Vec<_>>()}));
         }
         for d in done.iter().filter(|d| d.stratum == "sweep-unusable").take(1) {
@@ -1042,7 +1052,7 @@ fn run_c10(seed: u64, tier: &str, bins: Arc<Binaries>, jobs: usize, evidence: Op
     let groups: Vec<usize> = tagged.iter().map(|(u, _)| *u).collect();
     let cases: Vec<Planned> = tagged.into_iter().map(|(_, p)| p).collect();
     let total = cases.len();
-    let done = match execute_all(cases, bins.clone(), jobs) {
+    let done = match execute_all(cases, bins.clone(), jobs, 1) {
         Ok(d) => d,
         Err(e) => {
             println!("HARNESS-ERROR {}", e);
